@@ -333,6 +333,11 @@ func (x *Exec) evalCtxFor(c *Contract, st, old *State, recv SVal, args []SVal, s
 		}
 	}
 	if c == x.contract {
+		for k, v := range x.retGhosts {
+			if _, shadow := ec.names[k]; !shadow {
+				ec.names[k] = v
+			}
+		}
 		for k, v := range x.freeVarNames {
 			if _, shadow := ec.names[k]; !shadow {
 				ec.names[k] = v
@@ -1458,7 +1463,12 @@ func (x *Exec) builtinModel(fr *Frame, st *State, fn *ssa.Function, name string,
 		return true
 	case "(*sync/atomic.Int64).Load", "(*sync/atomic.Bool).Load", "(*sync/atomic.Int32).Load":
 		model()
-		k(st, x.atomicGet(st, args[0].(*PtrV), fn.Signature.Results().At(0).Type()))
+		lv := x.atomicGet(st, args[0].(*PtrV), fn.Signature.Results().At(0).Type())
+		if cnt, ok := st.ghost["atomicTrueLoads"].(*Term); ok && lv.sort.K == KBool {
+			// ghost count of atomic.Bool loads that returned true (when the spec declares it)
+			st.ghost["atomicTrueLoads"] = tb.BVBin("bvadd", cnt, tb.Ite(lv, tb.BVi(64, 1), tb.BVi(64, 0)))
+		}
+		k(st, lv)
 		return true
 	case "(*sync/atomic.Int64).Add", "(*sync/atomic.Int32).Add":
 		model()
